@@ -14,7 +14,7 @@ use neurons::tensor::Tensor;
 pub fn meta(ctx: &Ctx) -> Meta {
     let d = depth(ctx);
     Meta {
-        rule: format!("block layer lists {{[dense],[dense,dense],[conv],[conv,conv],[deconv],[conv,deconv]}} x bias on/off x loops 1..3 (5, 6, 8 for three of the lists) x coupling {{add,subtract,multiply,mean}} x optimizers {{SGD, SGD with learning rate 1e-6, SGDM, Adam, AdamW, RMSprop}} x block first / between other layers; actions {{learn(A, batch 1), learn(B, 3 samples, batch 2), learn(A+B, batch 5, 2 epochs)}}; ALL action sequences of length <= {}. Invariant in every state (initial state included): all unrolled copies of each block layer hold bit-identical weights, biases and kernels (NaN = NaN), and the `parameters:` line of Display counts each shared parameter once. States = histories; transitions = learn() calls; non-trivial = states in which the block's weights differ from their initial values", d),
+        rule: format!("block layer lists {{[dense],[dense,dense],[conv],[conv,conv],[deconv],[conv,deconv]}} x bias on/off x loops 1..3 (5, 6, 8 for three of the lists) x coupling {{add,subtract,multiply,mean}} x optimizers {{SGD, SGD with learning rate 1e-6, SGDM, Adam, AdamW, RMSprop}} x block first / between other layers; actions {{learn(A, batch 1), learn(B, 3 samples, batch 2), learn(A+B, batch 5, 2 epochs), learn on a sample whose target is the current prediction (all gradients exactly zero)}}; ALL action sequences of length <= {}. Invariant in every state (initial state included): all unrolled copies of each block layer hold bit-identical weights, biases and kernels (NaN = NaN), and the `parameters:` line of Display counts each shared parameter once. States = histories; transitions = learn() calls; non-trivial = states in which the block's weights differ from their initial values", d),
         bound: format!("history depth {}; complete over the configuration product", d),
         exhaustive: true,
         assumptions: vec!["overwrite coupling is explicitly unimplemented in the library and outside the statement".into()],
@@ -161,10 +161,17 @@ pub fn check(seed: u64, case: &Kv, rep: &mut Report) {
         let (idx, batch, epochs): (Vec<usize>, usize, i32) = match a {
             0 => (vec![0, 1], 1, 1),
             1 => (vec![2, 3, 4], 2, 1),
-            _ => (vec![0, 1, 2, 3, 4], 5, 2),
+            2 => (vec![0, 1, 2, 3, 4], 5, 2),
+            // a step whose gradients are all exactly zero: the target is the current prediction (MSE gradient 2(p-t)/n = 0);
+            // stateful optimizers still move every copy by its own momentum
+            _ => (vec![0], 1, 1),
         };
+        let zero_target: Option<Tensor> = if *a == 3 { guard(|| lib.predict(&data[0].0)).ok() } else { None };
         let xs: Vec<&Tensor> = idx.iter().map(|i| &data[*i].0).collect();
-        let ts: Vec<&Tensor> = idx.iter().map(|i| &data[*i].1).collect();
+        let ts: Vec<&Tensor> = match &zero_target {
+            Some(t) => vec![t],
+            None => idx.iter().map(|i| &data[*i].1).collect(),
+        };
         rep.transitions += 1;
         match guard(|| lib.learn(&xs, &ts, None, batch, epochs, None)) {
             Ok(_) => (),
@@ -199,7 +206,7 @@ pub fn cases(ctx: &Ctx) -> Vec<Kv> {
     for _ in 0..d {
         let mut next = Vec::new();
         for h in &frontier {
-            for a in 0..3 {
+            for a in 0..4 {
                 let mut n = h.clone();
                 n.push(a);
                 next.push(n);
